@@ -218,6 +218,44 @@ def line(e):
     return loc[0] if loc else 0
 
 
+def conjuncts(e):
+    """Atomic conditions that all hold when `e` is true: splits && (looking through P_LIKELY-style wrappers and !!)."""
+    e = strip_casts(e, explicit=False)
+    if e is None:
+        return []
+    if e["k"] == "bin" and e["op"] == "&&":
+        return conjuncts(e["l"]) + conjuncts(e["r"])
+    return [e]
+
+
+def true_edge_guards(fn, target_bid, pred):
+    """Blocks whose true edge every path from the entry to block `target_bid` must take and whose condition has a conjunct
+    satisfying `pred`; returns the list of matching conjunct expressions."""
+    out = []
+    for gb in fn.blocks.values():
+        c = gb.cond
+        if c is None:
+            continue
+        hits = [x for x in conjuncts(c) if pred(x)]
+        if not hits:
+            continue
+        tt = [to for (to, on) in gb.succs if on == "true"]
+        if not tt:
+            continue
+        seen, work = set(), [fn.entry]
+        while work:
+            x = work.pop()
+            if x in seen:
+                continue
+            seen.add(x)
+            for (to, on) in fn.blocks[x].succs:
+                if (x, to) != (gb.id, tt[0]):
+                    work.append(to)
+        if target_bid not in seen:
+            out.extend(hits)
+    return out
+
+
 def is_call(e, name=None):
     e = strip_casts(e)
     if e is None or e["k"] != "call":
@@ -364,6 +402,27 @@ class Function:
     def __repr__(self):
         return "<fn %s:%s>" % (self.unit.name, self.name)
 
+    # -- inlining of unit-local static helpers ------------------------------------
+    def inlined(self, depth=3, max_blocks=80, only=None, skip=()):
+        """A copy of this function in which calls to static functions of the same unit are replaced by the callee's CFG
+        (parameters become renamed locals, `return e` becomes an assignment to a fresh temporary that replaces the call).
+        Rules that analyse one public function path by path use this view, so that extracting part of the function into a
+        static helper - or inlining one - does not change what they see."""
+        key = (depth, max_blocks, tuple(sorted(only)) if only else None, tuple(sorted(skip)))
+        cache = self.__dict__.setdefault("_inl", {})
+        if key in cache:
+            return cache[key]
+        import copy
+        d = copy.deepcopy(self.d)
+        counter = [0]
+        for _round in range(depth):
+            if not _inline_round(d, self.unit, self.name, counter, max_blocks, only, skip):
+                break
+        f = Function(d, self.unit)
+        f.inlined_from = self
+        cache[key] = f
+        return f
+
     # -- iteration -------------------------------------------------------
     def reachable_blocks(self):
         if self._reach is None:
@@ -399,6 +458,70 @@ class Function:
 
     def param_names(self):
         return [p["name"] for p in self.params]
+
+    def origins(self, expr, _seen=None):
+        """Leaf expressions the value of `expr` is computed from, looking through locals (every definition of a local
+        contributes): parameter references, calls, members, constants."""
+        seen = _seen if _seen is not None else set()
+        defs = self.__dict__.get("_defs")
+        if defs is None:
+            defs = {}
+            for b, i, s in self.stmts():
+                for n in walk(s, elsewhere=True):
+                    if n["k"] == "decl" and n.get("init") is not None:
+                        defs.setdefault(n["name"], []).append(n["init"])
+                    elif n["k"] == "asg" and strip_casts(n["l"]) is not None and strip_casts(n["l"])["k"] == "ref":
+                        defs.setdefault(strip_casts(n["l"])["name"], []).append(n["r"])
+            self.__dict__["_defs"] = defs
+        out = []
+        stack = [expr]
+        while stack:
+            n = stack.pop()
+            if n is None:
+                continue
+            k = n["k"]
+            if k == "call":
+                out.append(n)              # a call is a leaf: what flows into its arguments is the callee's business
+                continue
+            if k == "ref" and n.get("decl") == "local" and n["name"] in defs:
+                if n["name"] not in seen:
+                    seen.add(n["name"])
+                    for d_ in defs[n["name"]]:
+                        out.extend(self.origins(d_, seen))
+                continue
+            if k in ("ref", "int"):
+                out.append(n)
+                continue
+            if k == "member":
+                out.append(n)
+            for kk in ("l", "r", "e", "base", "i", "c", "a", "b", "init"):
+                if isinstance(n.get(kk), dict):
+                    stack.append(n[kk])
+        return out
+
+    def value_aliases(self, name):
+        """`name` plus every local whose only definition is a (cast of a) copy of it: `T *self = arg;`"""
+        out = {name}
+        changed = True
+        while changed:
+            changed = False
+            defs = {}
+            for b, i, s in self.stmts():
+                for n in walk(s):
+                    if n["k"] == "decl" and n.get("init") is not None:
+                        defs.setdefault(n["name"], []).append(n["init"])
+                    elif n["k"] == "asg" and strip_casts(n["l"]) is not None and strip_casts(n["l"])["k"] == "ref":
+                        defs.setdefault(strip_casts(n["l"])["name"], []).append(n["r"] if n["op"] == "=" else None)
+                    elif n["k"] == "un" and ("++" in n["op"] or "--" in n["op"]) and strip_casts(n["e"])["k"] == "ref":
+                        defs.setdefault(strip_casts(n["e"])["name"], []).append(None)
+            for v, ds in defs.items():
+                if v in out or len(ds) != 1 or ds[0] is None:
+                    continue
+                r = strip_casts(ds[0])
+                if r is not None and r["k"] == "ref" and r["name"] in out and r["name"] not in defs:
+                    out.add(v)
+                    changed = True
+        return out
 
     # -- dominators ------------------------------------------------------
     def _compute_dom(self, entry, succs_of, preds_of, nodes):
@@ -524,6 +647,165 @@ class Function:
         return "%s:%d" % (self.unit.relpath, l)
 
 
+def _walk_all(e):
+    for n in walk(e, elsewhere=True):
+        yield n
+
+
+def _rename_tree(e, suffix, names):
+    for n in _walk_all(e):
+        if n["k"] == "ref" and n.get("decl") in ("local", "param") and n["name"] in names:
+            n["name"] = n["name"] + suffix
+            n["decl"] = "local"
+        elif n["k"] == "decl" and n["name"] in names:
+            n["name"] = n["name"] + suffix
+
+
+def _inline_round(d, unit, self_name, counter, max_blocks, only, skip):
+    """One pass: inline every eligible call found in the blocks as they are now. Returns True when something was inlined."""
+    import copy
+    did = False
+    blocks = {b["id"]: b for b in d["blocks"]}
+    work = sorted(blocks)
+    for bid in work:
+        b = blocks[bid]
+        i = 0
+        while i < len(b["stmts"]):
+            st = b["stmts"][i]
+            call = None
+            for n in walk(st):
+                if n["k"] == "call" and n.get("callee") in unit.functions and n["callee"] != self_name:
+                    cf = unit.functions[n["callee"]]
+                    if not cf.static or cf.d.get("variadic") or len(cf.blocks) > max_blocks or n["callee"] in skip or (only and n["callee"] not in only):
+                        continue
+                    if len(n["args"]) != len(cf.params):
+                        continue
+                    call = n
+                    break
+            if call is None:
+                i += 1
+                continue
+            cf = unit.functions[call["callee"]]
+            counter[0] += 1
+            k = counter[0]
+            suffix = "__i%d" % k
+            cd = copy.deepcopy(cf.d)
+            names = set(p["name"] for p in cd.get("params", []))
+            for cb in cd["blocks"]:
+                for s_ in cb["stmts"]:
+                    for n in _walk_all(s_):
+                        if n["k"] == "decl":
+                            names.add(n["name"])
+            tmp = "__ret_%s_%d" % (cf.name, k)
+            loc = call.get("loc", [0, 0])
+            base = max(blocks) + 1
+            idmap = {cb["id"]: base + j for j, cb in enumerate(cd["blocks"])}
+            cont_id = base + len(cd["blocks"])
+            # continuation block: the rest of b
+            ci = (b.get("term") or {}).get("ci")
+            cont = {"id": cont_id, "stmts": b["stmts"][i:], "succs": b["succs"]}
+            if b.get("term"):
+                t2 = dict(b["term"])
+                if ci is not None and ci >= 0:
+                    t2["ci"] = ci - i
+                cont["term"] = t2
+            # parameter passing: a parameter the callee never modifies and that receives a plain variable of the caller is
+            # replaced by that variable (the code then reads as before the helper was extracted); otherwise a renamed local
+            assigned = set()
+            for cb in cd["blocks"]:
+                for s_ in cb["stmts"]:
+                    for n in _walk_all(s_):
+                        tgt = None
+                        if n["k"] == "asg":
+                            tgt = n["l"]
+                        elif n["k"] == "un" and (n["op"] in ("&",) or "++" in n["op"] or "--" in n["op"]):
+                            tgt = n["e"]
+                        while tgt is not None and tgt["k"] == "cast":
+                            tgt = tgt["e"]
+                        if tgt is not None and tgt["k"] == "ref":
+                            assigned.add(tgt["name"])
+            pre = []
+            direct = {}
+            for p_, a in zip(cd.get("params", []), call["args"]):
+                av = a
+                while av is not None and av["k"] == "cast" and av.get("ck") in ("NoOp", "LValueToRValue", "BitCast"):
+                    av = av["e"]
+                if av is not None and av["k"] == "ref" and av.get("decl") in ("local", "param") and p_["name"] not in assigned and not av.get("x"):
+                    direct[p_["name"]] = (av["name"], av.get("decl"))
+                    continue
+                pre.append({"k": "asg", "op": "=", "loc": loc, "t": p_["t"], "inl": 1,
+                            "l": {"k": "ref", "decl": "local", "name": p_["name"] + suffix, "t": p_["t"], "loc": loc}, "r": a})
+            if direct:
+                for cb in cd["blocks"]:
+                    for s_ in cb["stmts"]:
+                        for n in _walk_all(s_):
+                            if n["k"] == "ref" and n.get("decl") == "param" and n["name"] in direct:
+                                n["name"], n["decl"] = direct[n["name"]]
+                names -= set(direct)
+            b["stmts"] = b["stmts"][:i] + pre
+            b["succs"] = [{"to": idmap[cd["entry"]], "on": ""}]
+            b.pop("term", None)
+            for cb in cd["blocks"]:
+                cb["id"] = idmap[cb["id"]]
+                for s_ in cb["succs"]:
+                    s_["to"] = idmap[s_["to"]]
+                new_stmts = []
+                for s_ in cb["stmts"]:
+                    _rename_tree(s_, suffix, names)
+                    if s_["k"] == "ret":
+                        if s_.get("e") is not None:
+                            new_stmts.append({"k": "asg", "op": "=", "loc": s_.get("loc", loc), "t": cd.get("ret", 0), "inl": 1,
+                                              "l": {"k": "ref", "decl": "local", "name": tmp, "t": cd.get("ret", 0), "loc": s_.get("loc", loc)}, "r": s_["e"]})
+                        continue
+                    new_stmts.append(s_)
+                # a terminator index may shift when a return statement is dropped (returns are last in their block: no shift)
+                cb["stmts"] = new_stmts
+                if cb["id"] == idmap[cd["exit"]]:
+                    cb["succs"] = [{"to": cont_id, "on": ""}]
+                blocks[cb["id"]] = cb
+                d["blocks"].append(cb)
+            blocks[cont_id] = cont
+            d["blocks"].append(cont)
+            # the call's value: every occurrence of this call expression (also the copies the CFG placed in later blocks)
+            repl = {"k": "ref", "decl": "local", "name": tmp, "t": call.get("t", 0), "loc": loc, "inl": 1}
+            ckey = (tuple(loc[:2]), call.get("callee"))
+
+            def subst(e):
+                if isinstance(e, dict):
+                    for kk, v in list(e.items()):
+                        if isinstance(v, dict):
+                            if v.get("k") == "call" and (tuple((v.get("loc") or [0, 0])[:2]), v.get("callee")) == ckey:
+                                r2 = dict(repl)
+                                if v.get("x"):
+                                    r2["x"] = 1
+                                e[kk] = r2
+                            else:
+                                subst(v)
+                        elif isinstance(v, list):
+                            for idx, it in enumerate(v):
+                                if isinstance(it, dict) and it.get("k") == "call" and (tuple((it.get("loc") or [0, 0])[:2]), it.get("callee")) == ckey:
+                                    r2 = dict(repl)
+                                    if it.get("x"):
+                                        r2["x"] = 1
+                                    v[idx] = r2
+                                else:
+                                    subst(it)
+                elif isinstance(e, list):
+                    for it in e:
+                        subst(it)
+            for ob in d["blocks"]:
+                if idmap and ob["id"] in idmap.values():
+                    continue
+                holder = {"s": ob["stmts"]}
+                subst(holder)
+            did = True
+            # continue scanning in the continuation block (its first statement held the call)
+            b = cont
+            bid = cont_id
+            i = 0
+    return did
+
+
 class Record:
     def __init__(self, d):
         self.d = d
@@ -565,6 +847,29 @@ class Unit:
         if f is None:
             raise AnalysisBroken("anchor function %s not found in %s" % (name, self.relpath))
         return f
+
+    def roots(self, **kw):
+        """Inlined views of the functions that are entered from outside the unit or through a pointer: everything that is not
+        a static function only ever called directly by other functions of the unit."""
+        called, taken = set(), set()
+        for f in self.functions.values():
+            for b, i, s_ in f.stmts():
+                for n in walk(s_, elsewhere=True):
+                    if n["k"] == "call" and n.get("callee") in self.functions:
+                        called.add(n["callee"])
+                        for a in n["args"]:
+                            for m in walk(a, elsewhere=True):
+                                if m["k"] == "ref" and m.get("decl") == "func" and m["name"] in self.functions:
+                                    taken.add(m["name"])
+                    elif n["k"] == "ref" and n.get("decl") == "func" and n["name"] in self.functions:
+                        taken.add(n["name"])
+        # a callee reference inside a call node is emitted as the call's `callee`, not as a ref: `taken` holds real address uses
+        out = []
+        for f in self.functions.values():
+            if f.static and f.name in called and f.name not in taken:
+                continue
+            out.append(f.inlined(**kw))
+        return out
 
     def enum_value(self, const):
         for items in self.enums.values():
